@@ -55,7 +55,13 @@ ASSUMPTIONS = ["node ids are non-negative ints; element symbols are ASCII letter
                "bond orders / standard_order are half-integer floats (never a mix of int and float for the same value); a missing "
                "standard_order is a covered value of its own (the signature prints 0 vs 0.0, the nauty label '' vs '0.0')",
                "undirected simple graphs without self-loops (networkx.Graph): premise wf of the theorems"]
-TESTED_NOT_PROVED = ["WL colours and Morgan labels are external inputs of the model (any ranking): faithfulness, soundness and "
+TESTED_NOT_PROVED = ["history / provenance independence: in the model a graph IS its node list and edge list (no graph-level attributes, no object "
+                     "identity, no canonicaliser state), so the modelled functions cannot look at anything else by construction; that the "
+                     "implementation does not either is checked by the oracle on every graph case (inputs derived from earlier outputs: "
+                     "relabel_nodes / copy+edit / subgraph of canonical twins; graph-level attributes incl. tag look-alikes; the same graph and "
+                     "canonicaliser objects run through all back-ends in sequence; wrappers built from the outputs of wrappers - each answer "
+                     "compared with the answer for the same nodes and edges built from scratch)",
+                     "WL colours and Morgan labels are external inputs of the model (any ranking): faithfulness, soundness and "
                      "'function of the graph given the ranking' are proved for every ranking; that the rankings themselves are a function "
                      "of the graph is only exercised by the oracle (no invariance is claimed for these back-ends)",
                      "SynRule: the decomposition of an ITS graph into (rc, left, right), explicit-hydrogen stripping and tuple-valued ITS "
@@ -520,7 +526,109 @@ def _oracle_graph(case):
                 fails.append(_fail("nauty-invariant", "isomorphic graphs get different signatures; A=%r B=%r" % (p0, h)))
         if len(fails) >= 4:
             break
+    if len(fails) < 4 and case.get("sub") != "neighbour":
+        _oracle_history(case, fails)
     return fails[:4]
+
+
+def _fresh(G):
+    """The same nodes, edges and attributes built from scratch: no graph-level attributes, no provenance."""
+    import networkx as nx
+    H = nx.Graph()
+    for n, d in G.nodes(data=True):
+        H.add_node(n, **dict(d))
+    for u, v, d in G.edges(data=True):
+        H.add_edge(u, v, **dict(d))
+    return H
+
+
+GRAPH_TAGS = {"name": "mol-7", "_canon_backend": None, "canonical": True, "_canonical": True, "is_canonical": True,
+              "_canon": "done", "canonical_hash": "0" * 32, "signature": "f" * 32, "backend": None}
+
+
+def _history(c, be, D, what, fails):
+    """History / provenance independence: the answer for D (derived from earlier outputs, or carrying graph-level
+    attributes) must be the answer for the same nodes and edges built from scratch with a fresh canonicaliser."""
+    F = _fresh(D)
+    before = _abstract(D)
+    cD, sD = c.make_canonical_graph(D), c.canonical_signature(D)
+    c2 = _canoniser(be)
+    cF, sF = c2.make_canonical_graph(F), c2.canonical_signature(F)
+    n = D.number_of_nodes()
+    if _abstract(D) != before:
+        fails.append(_fail("history/%s" % be, "%s: canonicalisation mutated its input" % what))
+    if sorted(cD.nodes) != list(range(1, n + 1)):
+        fails.append(_fail("onto-1..N/%s" % be, "%s: canonical node ids %r for %d nodes; input %r" % (what, sorted(cD.nodes), n, _abstract(D))))
+    if _abstract(cD) != _abstract(cF) or sD != sF:
+        fails.append(_fail("history/%s" % be, "%s: answer differs from the answer for the same nodes and edges built from scratch: %s vs %s; "
+                           "canonical %r vs %r; input %r graph-attrs %r" % (what, sD, sF, _abstract(cD), _abstract(cF), _abstract(D), dict(D.graph))))
+
+
+def _oracle_history(case, fails):
+    """Inputs derived from earlier outputs of the canonicaliser, inputs with graph-level attributes, the same objects
+    canonicalised repeatedly with different back-ends, wrappers built from the outputs of wrappers."""
+    import networkx as nx
+    from synkit.Graph.canon_graph import CanonicalGraph
+    from synkit.Graph.syn_graph import SynGraph
+    p0 = case["g"]
+    n = len(p0["nodes"])
+    canons = {be: _canoniser(be) for be in BACKENDS}
+    shared = _nx(p0)
+    twins = {}
+    # the same graph object and the same canonicaliser objects, all back-ends in sequence, twice, then reversed
+    for be in BACKENDS + BACKENDS[::-1]:
+        c = canons[be]
+        cg, s = c.make_canonical_graph(shared), c.canonical_signature(shared)
+        c2 = _canoniser(be)
+        F = _nx(p0)
+        if s != c2.canonical_signature(F) or _abstract(cg) != _abstract(c2.make_canonical_graph(F)):
+            fails.append(_fail("history/%s" % be, "the same graph object canonicalised after other back-ends gives another answer; input %r" % (p0,)))
+        twins[be] = cg
+    for be in BACKENDS:
+        c = canons[be]
+        cg = twins[be]
+        ids = list(cg.nodes)
+        # renumbered twin (arbitrary ids), twin + one atom, twin - one bond / atom, induced subgraph of the twin
+        D = nx.relabel_nodes(cg, {v: 50 + 3 * (n - k) for k, v in enumerate(ids)}, copy=True)
+        _history(c, be, D, "relabel_nodes of a canonical twin", fails)
+        if be == "generic":
+            _history(canons["nauty"], "nauty", D, "relabel_nodes of a generic canonical twin", fails)
+        D = cg.copy()
+        D.add_node(n + 4, element="N", aromatic=False, charge=0, hcount=1)
+        D.add_edge(ids[0], n + 4, order=1.0)
+        _history(c, be, D, "canonical twin + one atom", fails)
+        if n >= 2:
+            D = cg.copy()
+            if D.number_of_edges():
+                D.remove_edge(*list(D.edges)[0])
+            else:
+                D.remove_node(ids[-1])
+            _history(c, be, D, "canonical twin - one bond/atom", fails)
+            D = cg.subgraph(ids[1:]).copy()
+            _history(c, be, D, "induced subgraph of a canonical twin", fails)
+        # arbitrary graph-level attributes, including ones that look like internal tags
+        D = _nx(p0)
+        tags = dict(GRAPH_TAGS)
+        tags["_canon_backend"] = be
+        tags["backend"] = be
+        D.graph.update(tags)
+        _history(c, be, D, "input with graph-level attributes", fails)
+        # wrappers built from the outputs of wrappers
+        P0 = _nx(p0)
+        w = CanonicalGraph(P0, c)
+        w2 = CanonicalGraph(w.canonical_graph, c)
+        w3 = CanonicalGraph(_fresh(w.canonical_graph), _canoniser(be))
+        if w2.canonical_hash != w3.canonical_hash or _abstract(w2.canonical_graph) != _abstract(w3.canonical_graph):
+            fails.append(_fail("history/%s" % be, "CanonicalGraph of a CanonicalGraph's twin differs from the one of the same graph built from scratch; input %r" % (p0,)))
+        sg = SynGraph(P0, c)
+        s2 = SynGraph(sg.canonical, c)
+        s3 = SynGraph(_fresh(sg.canonical), _canoniser(be))
+        if s2.signature != s3.signature or not (s2 == s3):
+            fails.append(_fail("history/%s" % be, "SynGraph of a SynGraph's canonical graph differs from the one of the same graph built from scratch; input %r" % (p0,)))
+        if be == "nauty" and not (s2 == sg and w2 == w):
+            fails.append(_fail("value-objects", "wrapper of a canonical twin differs from the wrapper of the raw graph (nauty); input %r" % (p0,)))
+        if len(fails) >= 4:
+            break
 
 
 def _oracle_batch(case):
